@@ -15,7 +15,7 @@
 (* property talks about.  Consumption never blocks on a disagreement: a    *)
 (* disagreement is always an invariant, never a stuck trace.               *)
 (***************************************************************************)
-EXTENDS Sem, Json, IOUtils, SequencesExt
+EXTENDS SemErr, Json, IOUtils, SequencesExt
 
 Trace == ndJsonDeserialize(IOEnv.TRACE)
 N == Len(Trace)
@@ -208,6 +208,14 @@ C12_NoPanic ==
   /\ Check("C12", "panic", chk.obsst # "panic")
   /\ Check("C12", "a failed execution returned postings or metadata",
            (chk.kind = "outcome" /\ ~ObsOk) => (chk.obs = <<>> /\ ~O.leak))
+
+\* ---- C12: the error names a cause that is present; a program with an unskippable cause returns no result
+C12_Typed ==
+  /\ C12_NoPanic
+  /\ Check("C12", "the error class names no cause present in the script and its inputs",
+           (chk.kind = "outcome" /\ ~ObsOk /\ chk.obsst \in KnownClasses) => chk.obsst \in MayFail(C))
+  /\ Check("C12", "a result was returned although the script cannot be executed (ill-typed / unknown name / bad variable / negative amount)",
+           (chk.kind = "outcome" /\ ObsOk) => MustFail(C) = {})
 
 \* ---- behaviour generation for the relational checks C08 / C09: the state after every statement
 \* (visible balances following the observed postings and the save formula) is printed, one line per split point
